@@ -107,6 +107,9 @@ def materialise(v, env):
         c = v['$coord']
         args = [materialise(e, env) for e in c[1:]]
         return getattr(env.coord, 'Coord' + c[0])(*args)
+    if '$num' in v:
+        kind, x = v['$num']
+        return {'f32': env.np.float32, 'f64': env.np.float64, 'int': int}[kind](x)
     if '$tuple' in v:
         return tuple(materialise(e, env) for e in v['$tuple'])
     if '$shared' in v:
@@ -305,8 +308,16 @@ def r_xyz(rng):
     lat = math.radians(rng.uniform(-85, 85))
     lon = math.radians(rng.uniform(-180, 180))
     r = 6371000 + rng.choice([0, 100, -50, 500000, 2e7]) * rng.random()
-    return (round(r * math.cos(lat) * math.cos(lon), 4), round(r * math.cos(lat) * math.sin(lon), 4),
-            round(r * math.sin(lat) * 0.9966, 4))
+    x, y, z = (round(r * math.cos(lat) * math.cos(lon), 4), round(r * math.cos(lat) * math.sin(lon), 4),
+               round(r * math.sin(lat) * 0.9966, 4))
+    k = rng.random()
+    if k < 0.05:
+        y = rng.choice([0.0, -0.0])          # on the Greenwich / 180 degree meridian plane: the sign of zero decides
+    elif k < 0.08:
+        z = rng.choice([0.0, -0.0])          # in the equatorial plane
+    elif k < 0.12:
+        x, y, z = float(round(x)), float(round(y)), float(round(z))      # whole metres: exact in single precision too
+    return x, y, z
 
 
 def r_grid(rng):
@@ -816,6 +827,8 @@ ELL_VALUES = {'grs80': (6378137, 298.257222101), 'wgs84': (6378137, 298.25722356
 def _perturb(rng, v):
     if isinstance(v, bool) or not isinstance(v, (int, float)):
         return None
+    if isinstance(v, float) and not math.isfinite(v):
+        return None
     if isinstance(v, int):
         return None
     d = rng.choice([1e-9, -1e-9, 1e-7, 1e-5, -1e-3])
@@ -825,7 +838,22 @@ def _perturb(rng, v):
 def near_variant(rng, lit, ctx):
     """-> a literal close to `lit` (or None when no relative is defined)"""
     if isinstance(lit, float):
+        k = rng.random()
+        if lit == 0.0 and k < 0.6:
+            return -0.0 if math.copysign(1.0, lit) > 0 else 0.0          # equal, not identical
+        if k < 0.12 and math.isfinite(lit):
+            # the same number in another numeric type (a caller's numpy table, single precision, an int):
+            # equal as a dictionary key, not the same computation
+            import struct
+            kinds = ['f64']
+            if struct.unpack('f', struct.pack('f', lit))[0] == lit:
+                kinds += ['f32', 'f32']
+            if lit == int(lit) and abs(lit) < 2 ** 53:
+                kinds.append('int')
+            return {'$num': [rng.choice(kinds), lit]}
         return _perturb(rng, lit)
+    if isinstance(lit, dict) and '$num' in lit:
+        return float(lit['$num'][1])
     if isinstance(lit, list):
         idx = [i for i, x in enumerate(lit) if isinstance(x, float)]
         if not idx:
